@@ -235,6 +235,10 @@ func (f *FuncCtx) specIdent(name string, env *Env) (Val, bool) {
 		switch o.(type) {
 		case *types.Const, *types.Var:
 			return f.objVal(o, env), true
+		case *types.Func:
+			// a declared function used as a value
+			fn := o.(*types.Func)
+			return Val{T: f.funcConst(fn.FullName()), Typ: fn.Type()}, true
 		}
 	}
 	if o := types.Universe.Lookup(name); o != nil {
